@@ -48,6 +48,7 @@ void mc_observe(int slot, long value);
 int  mc_thread_create(void *(*fn)(void *), void *arg);      /* returns thread index */
 void mc_thread_join(int tid);
 int  mc_self(void);
+void mc_wait_all(void);                                      /* returns when every other thread (detached ones included) has finished */
 /* model introspection for oracles */
 int  mc_mutex_owner(const void *pthread_mutex);              /* -1 free, -2 unknown object, else thread index */
 int  mc_in_call_blocked(void);                               /* number of times the calling thread was descheduled as not-enabled since mc_mark() */
